@@ -24,6 +24,8 @@ NoConfigs == {}
 EnvMirrorGoc   == IOEnv.C16_MIRROR_GOC = "1"
 EnvMirrorSetup == IOEnv.C16_MIRROR_SETUP = "1"
 EnvMirrorDone  == IOEnv.C16_MIRROR_DONE = "1"
+\* "0": report the consequence (two studies, lost counts, double feedback) instead of the commit point
+CommitPoints   == IOEnv.C16_COMMIT_POINTS # "0"
 
 VARIABLES tid, l
 tvars == <<tid, l>>
@@ -118,9 +120,9 @@ TSpec == TInit /\ [][TNext]_<<vars, tvars>>
 
 -----------------------------------------------------------------------------
 FirstViolated ==
-  CASE ~SingleCreator -> "SingleCreator"
-    [] ~SetupAtomic -> "SetupAtomic"
-    [] ~SingleCompleter -> "SingleCompleter"
+  CASE CommitPoints /\ ~SingleCreator -> "SingleCreator"
+    [] CommitPoints /\ ~SetupAtomic -> "SetupAtomic"
+    [] CommitPoints /\ ~SingleCompleter -> "SingleCompleter"
     [] ~OneStudyPerName -> "OneStudyPerName"
     [] ~CountersExact -> "CountersExact"
     [] ~IdsUnique -> "IdsUnique"
